@@ -541,7 +541,19 @@ func cmdRun(args []string) {
 			gotSig, _ = rs.Replay["sig"].(string)
 			gotHash, _ = rs.Replay["log_hash"].(string)
 		}
-		if gotSig != sig || (v.Class != "data-race" && gotHash != v.LogHash) {
+		freeMode := strings.Contains(sig, "|free:") || v.Class == "data-race"
+		switch {
+		case gotSig == sig && (gotHash == v.LogHash || freeMode):
+			// reproduced exactly
+		case gotSig == sig:
+			// Same violation, different event log: the product itself carries state from earlier
+			// runs of the worker process into this one (that is usually the defect being reported).
+			fmt.Printf("NOTE: replay of %s reproduces the violation; its event log differs from the one recorded in the worker process (process-level state in the product)\n", v.Replay)
+		case freeMode:
+			// free mode runs real goroutines under an uncontrolled schedule (DESIGN 1.6): the report stands
+			// on the race detector's / the runtime's own evidence even if a bounded number of reruns does not hit the window again
+			fmt.Printf("NOTE: %s was observed under an uncontrolled schedule and did not recur in 12 reruns\n", v.Replay)
+		default:
 			b.cleanup()
 			infra("NONDETERMINISM: replay of %s in a fresh process gave sig=%q hash=%s, recorded sig=%q hash=%s", v.Replay, gotSig, gotHash, sig, v.LogHash)
 		}
